@@ -233,6 +233,12 @@ def render_expr(e, L: Layout, ctx=0, top_break=False):
     return s
 
 
+# comment texts: a comment is stripped before anything else looks at the line, so brackets, braces, backticks and
+# equation-like text inside it must be inert (unbalanced on purpose)
+COMMENTS = ['comment', 'Y = X', '{a} <e> [1]', '', 'a) income identity', '(continued below', 'see f(x', ')) ((', '} {', '` tick',
+            '# nested', 'Z = (1 +']
+
+
 def render_equation(eq: Equation, L: Layout):
     lhs = render_term(eq.lhs, L, lhs=True)
     if L.wrap_rhs:
@@ -241,7 +247,7 @@ def render_equation(eq: Equation, L: Layout):
         rhs = render_expr(eq.rhs, L, 0)
     s = lhs + L.sp(L.eq_space, ('', ' ', '   ')) + '=' + L.sp(L.eq_space, ('', ' ', '   ')) + rhs
     if L.comment:
-        s += '  # ' + (L.rng.choice(['comment', 'Y = X', '{a} <e> [1]', '']) if L.rng else 'comment')
+        s += '  # ' + (L.rng.choice(COMMENTS) if L.rng else 'comment')
     return s
 
 
@@ -250,7 +256,7 @@ def render(prog: Program, L: Layout = PLAIN):
     for i, st in enumerate(prog.statements):
         if i and L.blank_lines:
             for j in range(L.blank_lines):
-                out.append('' if j % 2 == 0 else '# a comment-only line')
+                out.append('' if j % 2 == 0 else '# ' + (L.rng.choice(COMMENTS) if L.rng else 'a comment-only line'))
         if isinstance(st, Equation):
             out.append(render_equation(st, L))
         else:
